@@ -35,8 +35,13 @@ int main(int argc, char **argv) {
       F(laqgs)(&A, R, C, rowcnd, colcnd, amax, &equed);
       slusym_note("equed", (long)equed);
       real_t small = RMACH("Safe minimum") / RMACH("Precision"), large = (real_t)1 / small; char want;
-      if (rowcnd >= (real_t)0.1 && amax >= small && amax <= large) want = colcnd >= (real_t)0.1 ? 'N' : 'C'; else want = colcnd >= (real_t)0.1 ? 'R' : 'B';
-      slusym_assert_true(equed == want, "C11.equed.follows-threshold-rule");
+      /* the documented threshold is 0.1; the sources compare against the double constant 0.1 in every precision, LAPACK's single-precision routines against 0.1f: in single
+         precision a ratio strictly between the two roundings of 0.1 may go either way without contradicting the documented rule */
+      int ok_rule = 0;
+      for (int alt = 0; alt < (sizeof(real_t) == 4 ? 2 : 1) && !ok_rule; alt++) { double th = alt ? (double)(float)0.1 : 0.1;
+        if ((double)rowcnd >= th && amax >= small && amax <= large) want = (double)colcnd >= th ? 'N' : 'C'; else want = (double)colcnd >= th ? 'R' : 'B';
+        if (equed == want) ok_rule = 1; }
+      slusym_assert_true(ok_rule, "C11.equed.follows-threshold-rule");
       int re = equed == 'R' || equed == 'B', ce = equed == 'C' || equed == 'B'; int_t k = 0;
       for (int j = 0; j < n; j++) for (int i = 0; i < m; i++) if (S.D.nz[i][j]) { if (!re && !ce) e_assert_same(S.val[k], v0[k], "C11.apply.untouched-when-N");
             else { elem_t e = v0[k]; if (ce && re) e = e_scale(e, C[j] * R[i]); else if (ce) e = e_scale(e, C[j]); else e = e_scale(e, R[i]); e_assert_zero(e_sub(S.val[k], e), (double)e_abs1(e), "C11.apply.entry=a*selected-factors"); } k++; }
